@@ -17,6 +17,8 @@ import GoMC.Model.CFB8
 import GoMC.Spec.CFB8
 import GoMC.Lemmas.CFB8
 import GoMC.Gen.CFB8
+import GoMC.Model.ConnHist
+import GoMC.Lemmas.ConnHist
 namespace GoMC.Props.C10
 open GoMC GoMC.Model.CFB8 GoMC.Lemmas.CFB8
 open GoMC.Spec.CFB8 (run enc dec)
@@ -215,6 +217,46 @@ theorem C10_switch_readahead_loses :
     (connSetCipher E 2 [7, 9] (Rd.readOnce 4096 s).2).map Stream.flat = .ok [] := by
   intro E ct s
   exact ⟨⟨(Rd.readByte s).2, by decide, by decide⟩, by decide⟩
+
+/-! ### packets: the delivered list is the sent list, and later traffic never changes it -/
+
+section hist
+open GoMC.Model.ConnHist GoMC.Lemmas.ConnHist
+
+/-- in every history of writes and reads on the two ends (with `SetCipher`/`SetThreshold` anywhere), what
+an end holds is exactly the packets the other end wrote, in order, as many as it has read -/
+theorem C10_hist_delivered (steps : List Step) (s : Sess) (h : run {} steps = some s) :
+    s.gotB = (sentBy true steps).take s.gotB.length ∧ s.gotA = (sentBy false steps).take s.gotA.length := by
+  obtain ⟨_, _, c1, c2⟩ := run_facts h
+  simp only [List.nil_append] at c1 c2
+  constructor
+  · rw [← c1, List.take_left' rfl]
+  · rw [← c2, List.take_left' rfl]
+
+/-- history independence: whatever traffic `later` follows — reads into other or the same `Packet`
+values, writes in either direction on either end — the packets already delivered after `earlier` are still
+there, unchanged and in the same order, as a prefix of what is held at the end -/
+theorem C10_hist_independent (earlier later : List Step) (s₀ s₂ : Sess)
+    (h : run s₀ (earlier ++ later) = some s₂) :
+    ∃ s₁, run s₀ earlier = some s₁ ∧ s₁.gotA <+: s₂.gotA ∧ s₁.gotB <+: s₂.gotB := by
+  rw [run_append] at h
+  cases h1 : run s₀ earlier with
+  | none => rw [h1] at h; simp at h
+  | some s₁ =>
+    rw [h1] at h
+    simp only [Option.bind_some] at h
+    obtain ⟨⟨d1, e1⟩, ⟨d2, e2⟩, _, _⟩ := run_facts h
+    exact ⟨s₁, rfl, ⟨d1, e1.symm⟩, ⟨d2, e2.symm⟩⟩
+
+/-- example: b keeps the small packet `(1, [0x41])` while a second packet is written and read in each
+direction; at the end it is still the first thing b holds -/
+example :
+    run {} [.send true (1, [0x41]), .recv false, .other, .send false (7, [9, 9]), .send true (2, [0x50, 0x50]),
+            .recv true, .recv false]
+      = some { gotA := [(7, [9, 9])], gotB := [(1, [0x41]), (2, [0x50, 0x50])] } := by
+  decide
+
+end hist
 
 /- NOTE (composition left to C07/C09): DESIGN §8 states `C10_conn_transparent` directly about frames
    ("the frames sent through an encrypting writer are exactly the frames seen through the decrypting
